@@ -15,14 +15,19 @@ from . import gen, mdeck as md
 
 DENSITY_FAMILIES = [
     # (numeric value, spellings that differ only in trailing zeros / Fortran
-    #  exponent forms of one mantissa) -- the two families named by C09
+    #  exponent forms of one mantissa) -- the two families named by C09.
+    #  Spellings of one family must share a composition; two families with the
+    #  same numeric value (leading zero or not) are observed, not asserted.
     (2.7, ['2.7', '2.70', '2.700']),
-    (1.0, ['1.0', '1.00', '1.000']),
+    (1.0, ['1.0', '1.00', '1.000', '1.']),
     (2.0, ['2.', '2.0', '2.00']),
     (0.064, ['6.4-2', '6.4e-2', '6.4E-2', '6.4d-2', '6.4D-2']),
-    (10.5, ['10.5', '10.50']),
-    (0.5, ['.5', '.50', '0.5', '0.50']),
-    (1.2e-3, ['1.2-3', '1.2e-3', '1.2E-3', '1.2D-3']),
+    (10.5, ['10.5', '10.50', '10.500']),
+    (0.5, ['.5', '.50', '.500']),
+    (0.5, ['0.5', '0.50']),
+    (1.2e-3, ['1.2-3', '1.2e-3', '1.2E-3', '1.2D-3', '1.2d-3']),
+    (2.5, ['2.5', '2.50']),
+    (2.75, ['2.75', '2.750']),
 ]
 
 
@@ -82,10 +87,24 @@ class Builder:
         if d(st.integers(0, 5)) == 0:
             self.labels.add('void-cell')
             return 0, None
-        m = d(st.integers(1, self.n_mat))
-        # material 3 is given in mass fractions: only mass densities
-        sp, _val, _fi = d(density(mass_only=(m == 3)))
-        return m, sp
+        if not hasattr(self, 'palette'):
+            # a small palette makes cells share materials and density
+            # families, in different spellings
+            self.palette = []
+            for _ in range(d(st.integers(2, 3))):
+                m = d(st.integers(1, self.n_mat))
+                fi = d(st.integers(0, len(DENSITY_FAMILIES) - 1))
+                neg = True if m == 3 else d(st.sampled_from([True, True,
+                                                             False]))
+                self.palette.append((m, fi, neg))
+        if d(st.integers(0, 4)) == 0:
+            m = d(st.integers(1, self.n_mat))
+            # material 3 is given in mass fractions: only mass densities
+            sp, _val, _fi = d(density(mass_only=(m == 3)))
+            return m, sp
+        m, fi, neg = d(st.sampled_from(self.palette))
+        sp = d(st.sampled_from(DENSITY_FAMILIES[fi][1]))
+        return m, ('-' + sp) if neg else sp
 
     # -- simple regions ------------------------------------------------------
     def region(self, scale):
@@ -780,3 +799,109 @@ def prune_case(draw, tier='quick'):
     b.labels.add('prune-setting')
     return {'deck': b.deck, 'labels': sorted(b.labels), 'tier': tier,
             'box': W * 1.15, 'pseed': draw(st.integers(0, 2 ** 31 - 1))}
+
+
+# --------------------------------------------------------------------------
+# LIKE n BUT
+# --------------------------------------------------------------------------
+
+@st.composite
+def like_case(draw, tier='quick'):
+    """Level-0 deck with a base cell (optionally a container) and a chain of
+    LIKE n BUT cells overriding subsets of {mat, rho, trcl, fill, imp, u}."""
+    b = Builder(draw, tier, {'lattice': False})
+    d = draw
+    W = 9.0
+    world = b.add_surf('so', [W])
+    # a universe (or two) for containers
+    u1 = b.universe(0, 1.2, allow_lattice=False)
+    u2 = b.universe(0, 1.2, allow_lattice=False)
+    # base cell: a small body at the origin
+    body = d(st.sampled_from(['so', 'rpp', 'cz-slab']))
+    if body == 'so':
+        expr = md.S(-b.add_surf('so', [d(gen.length(0.6, 1.1))]))
+    elif body == 'rpp':
+        h = d(gen.length(0.5, 1.0))
+        expr = md.S(-b.add_surf('rpp', [-h, h, -h, h, -h, h]))
+    else:
+        cyl = b.add_surf('cz', [d(gen.length(0.5, 1.0))])
+        p1 = b.add_surf('pz', [-0.8])
+        p2 = b.add_surf('pz', [0.8])
+        expr = md.AND(md.S(-cyl), md.S(p1), md.S(-p2))
+    base_is_container = d(st.booleans())
+    base_id = b.new_cid()
+    if base_is_container:
+        base = md.cell(base_id, 0, None, expr, imp={'n': 1},
+                       fill={'u': u1, 'tr': b.transform_ref(1.2)})
+        b.labels.add('like:base-container')
+    else:
+        mat, rho = b.material()
+        base = md.cell(base_id, mat, rho, expr, imp={'n': 1})
+        if d(st.integers(0, 2)) == 0:
+            base['trcl'] = {'inline': md.trspec([0.0, d(st.sampled_from(
+                [2.5, -2.5])), 0.0], None, n_entries=3)}
+    cells = [base]
+    prev = base
+    n_like = d(st.integers(1, 3))
+    for k in range(1, n_like + 1):
+        lid = b.new_cid()
+        ref = prev if d(st.booleans()) else base
+        but = {}
+        # always move the copy so that cells do not overlap
+        dx = 2.6 * k * d(st.sampled_from([1.0, -1.0]))
+        if d(st.integers(0, 3)) == 0:
+            spec, _lab = d(gen.tr_spec(allow_abbrev=False, allow_13=False,
+                                       translation_only_weight=0))
+            spec['o'] = [dx, 0.0, d(st.sampled_from([0.0, 2.6, -2.6]))]
+            but['trcl'] = {'inline': spec}
+            b.labels.add('like:trcl-rot')
+        else:
+            but['trcl'] = {'inline': md.trspec(
+                [dx, 0.0, d(st.sampled_from([0.0, 2.6, -2.6]))], None,
+                n_entries=3)}
+        eff = md.expand_like({'cells': cells + [dict(md.cell(
+            lid, 0, None, None), like={'base': ref['id'], 'but': {}})]}
+        )['cells'][-1]
+        if eff.get('fill') is None:
+            if d(st.booleans()):
+                m, rho = b.material()
+                if m != 0:
+                    but['mat'] = m
+                    but['rho'] = rho
+                    b.labels.add('like:mat+rho')
+            elif eff['mat'] != 0 and d(st.booleans()):
+                _m, rho = b.material()
+                if rho is not None and not (eff['mat'] == 3
+                                            and not rho.startswith('-')):
+                    but['rho'] = rho
+                    b.labels.add('like:rho')
+        else:
+            if d(st.booleans()):
+                but['fill'] = {'u': d(st.sampled_from([u1, u2])),
+                               'tr': b.transform_ref(1.2)}
+                b.labels.add('like:fill')
+        if d(st.integers(0, 5)) == 0:
+            but['imp'] = {'n': d(st.sampled_from([2, 0]))}
+            b.labels.add('like:imp')
+        lc = md.cell(lid, 0, None, None, like={'base': ref['id'], 'but': but})
+        lc['expr'] = None
+        cells.append(lc)
+        if ref is prev and prev is not base:
+            b.labels.add('like:chain')
+        prev = lc
+    # background and graveyard
+    bg_terms = [md.S(-world)] + [md.CELLC(c['id']) for c in cells]
+    mat, rho = b.material()
+    bg = md.cell(b.new_cid(), mat, rho, md.AND(*bg_terms), imp={'n': 1})
+    gy = md.cell(b.new_cid(), 0, None, md.S(world), imp={'n': 0})
+    allc = cells + [bg, gy]
+    if d(st.booleans()):
+        # LIKE cells may refer to cells that come later in the deck
+        order = d(st.permutations(list(range(len(allc)))))
+        allc = [allc[o] for o in order]
+        b.labels.add('like:forward-reference')
+    b.deck['cells'] = [c for c in b.deck['cells']] + allc
+    b.labels.add('like')
+    b.labels.add('like:n=%d' % n_like)
+    return {'deck': b.deck, 'labels': sorted(b.labels), 'tier': tier,
+            'box': W * 1.1, 'pseed': draw(st.integers(0, 2 ** 31 - 1))}
